@@ -502,3 +502,39 @@ PROPS["C16"]["level_text"] += " compare_and_swap fills the cache only with (reso
 PROPS["C20"]["level_text"] += " Shared with C14: in range_query the record reference loaded under the epoch guard is never used after the guard is repinned."
 PROPS["C09"]["level_text"] += " force_flush returns Ok only from a round with no leftover work and an Ok retirement flush."
 
+
+# ---- round 5: journal slot decoding, free-space reconstruction, intent-journal coverage, scan panic-freedom
+JSLOT_TEXT = (" E2, allocation_journal::decode_slot header on every MIR path: the six header fields are read from the documented offsets of this slot; the slot gets past the header "
+              "exactly when magic, version in {1,2}, generation != 0, count <= 1024, state/count consistency, complement == !checksum and journal_checksum(data[..L]) == checksum hold "
+              "(L = whole slot for version 1, ceil((40+8*count)/4096)*4096 for version 2); Ok carries the parsed generation, the caller's slot index and the accepted entries in journal order. "
+              "allocation_journal::decode: each slot is the window data[i*12288..(i+1)*12288]; all-zero => missing, else candidate iff decode_slot returned Ok; the answer is the candidate with the "
+              "greatest generation, else the last missing slot with generation 0 and no extents, else CorruptedRecord.")
+for _p in ("C03", "C10"):
+    PROPS[_p]["level_text"] += JSLOT_TEXT
+    PROPS[_p]["functions"] += [JRN + "::decode", JRN + "::decode_slot"]
+PROPS["C04"]["level_text"] += " The journal slot believed by replay is the valid slot with the greatest generation (E2, allocation_journal::decode)."
+PROPS["C04"]["functions"] += [JRN + "::decode"]
+PROPS["C03"]["level_note"] = PROPS["C03"]["level_note"].replace("journal replay order and slot selection are outside the claim", "journal replay across crashes is outside the claim")
+PROPS["C03"]["outside"] = "crash images as executions, winner selection across iterations, torn journal writes as executions (slot acceptance/selection are decided per call)"
+GAP_TEXT = (" E2, free-space reconstruction in one arbitrary scan iteration (invariant last_end <= sector assumed and re-established): indexing a record releases exactly the gap "
+            "[last_end, sector) in front of it (once, only when sector > last_end) and sets last_end to the record's extent end; an iteration that indexes nothing (garbage, marker, "
+            "losing generation) leaves last_end unchanged and releases no gap – so the skipped blocks fall into the next released gap; after the loop [last_end, total) is released.")
+PROPS["C05"]["level_text"] += GAP_TEXT
+PROPS["C05"]["functions"] += [REC + "::scan_and_rebuild_indexes"]
+PROPS["C05"]["outside"] = "the partition at whole-store quiescent points as an execution, process_write_batch's allocation loop, leak-freedom over long runs"
+PROPS["C04"]["level_text"] += GAP_TEXT
+INTENT_TEXT = (" The allocation-intent journal written by process_write_batch is prepared_writes.iter().map(|w| (w.sector, w.sectors_needed)).collect(): one entry per prepared write – "
+               "one-block records included – covering its whole extent, for the same writes whose reservations were marked dirty.")
+for _p in ("C02", "C03", "C05", "C09"):
+    PROPS[_p]["level_text"] += INTENT_TEXT
+PROPS["C17"]["level_text"] += (" E2, one ARBITRARY iteration of the recovery scan on arbitrary block contents (sector < total_sectors < 2^52, last_end <= sector): no overflow assert, no "
+                               "out-of-range index/slice of the block buffer, no failing fixed-size conversion is reachable on any of the ~670 MIR paths.")
+PROPS["C17"]["functions"] += [REC + "::scan_and_rebuild_indexes"]
+PROPS["C17"]["outside"] = "the scan as a whole execution (termination is C18's progress obligation), file left unmodified on a rejected open (native witness only), behaviour of a store that did open, panics inside std/crate callees that are havocked in E2 and not covered by a Kani harness"
+PROPS["C16"]["level_text"] += " The read path refuses an expired generation before any value source – memory, cache or disk – is consulted, so a cached value is never served past its expiry (shared with C11)."
+PROPS["C16"]["functions"] += ["src/core/store/operations.rs::resolve_record_value"]
+PROPS["C20"]["level_text"] += (" E2, DiskIO::batch_write_inner (io_uring path), every MIR path with loops unrolled once: every buffer put into the in-flight registry owns its bytes "
+                               "(built from AlignedBuffer::new or retain_for_write, registry element type without lifetime); every submission entry's pointer/length come from "
+                               "registry slot i, which is marked in flight before the entry is pushed and unqueued again if the push fails – so memory the kernel may still read "
+                               "after an indeterminate failure is leaked by the registry, never freed or reused.")
+PROPS["C20"]["functions"] += [IO + "::batch_write_inner"]
